@@ -1344,6 +1344,18 @@ func (r *vpRun) closeProvider(w *vpWorld, parentOf map[int]int) {
 			w.fail(props, "after Provider.Close instance i%d (constructor %d, %v, scope s%d) has been closed %d times", b.Inst, b.Ctor, b.Life, b.ScopeN, b.closes.Load())
 		}
 	}
+	// instance values registered as singletons are owned by the provider as well: closed once, at Provider.Close
+	if !was {
+		for _, reg := range w.regs {
+			if reg.added && reg.isInst() && reg.life == Singleton && slotDisp(reg.outs[0].slot) && reg.inst.closes.Load() != 1 {
+				props := "C10"
+				if bad {
+					props = "C10,C12"
+				}
+				w.fail(props, "after Provider.Close the registered singleton instance i%d has been closed %d times", reg.inst.Inst, reg.inst.closes.Load())
+			}
+		}
+	}
 	// C13: provider and all scopes refuse
 	if _, e := w.prov.Get(slotType(0)); !errors.Is(e, ErrProviderDisposed) {
 		w.fail("C13", "closed provider still answers Get: %v", e)
